@@ -92,18 +92,19 @@ def part_fetch(job):
     ref = _fp(stored)
     with tempfile.TemporaryDirectory() as d0:
         TocCache(rw_cache=d0).insert(crc, stored)
-        fname = os.path.join(d0, '%08X.json' % crc)
-        if not os.path.exists(fname):
-            p.violation('cache:insert_wrote_nothing', 'insert(%08X) did not create %s' % (crc, fname), {'part': 'fetch', 'job': job})
+        written = sorted(os.listdir(d0))
+        if len(written) != 1:
+            p.violation('cache:insert_wrote_nothing', 'insert(%08X) left %r in the rw directory' % (crc, written), {'part': 'fetch', 'job': list(job)})
             return p
-        with open(fname, 'rb') as fh:
+        cname = written[0]
+        with open(os.path.join(d0, cname), 'rb') as fh:
             full = fh.read()
     hi = min(hi, len(full))
     dctx = tempfile.TemporaryDirectory()
     d = dctx.name
     for k in list(range(lo, hi + 1)) + ([len(full)] if hi < len(full) and lo == 0 else []):
         if True:
-            with open(os.path.join(d, '%08X.json' % crc), 'wb') as fh:
+            with open(os.path.join(d, cname), 'wb') as fh:
                 fh.write(full[:k])
             try:
                 got = TocCache(rw_cache=d).fetch(crc)
@@ -184,6 +185,7 @@ def part_odd_files(_):
         TocCache(rw_cache=d).insert(crc, stored)
         near = [crc ^ (1 << b) for b in range(32)] + [crc >> 4, (crc << 4) & 0xFFFFFFFF, crc & 0xFFFF, crc & 0xFFFFFF, 0, 0xFFFFFFFF,
                                                        int('%08X' % crc, 16) ^ 0xA]
+        near += [0x0034ABCD, 0x0000ABCD, 0x000000CD, 0x0234ABCD]
         for other in near:
             if other == crc:
                 continue
@@ -244,7 +246,12 @@ def part_connect(job):
     stored = _elements_from_device(dev0, which)
     with tempfile.TemporaryDirectory() as d0:
         TocCache(rw_cache=d0).insert(crc, stored)
-        with open(os.path.join(d0, '%08X.json' % crc), 'rb') as fh:
+        written = sorted(os.listdir(d0))
+        if len(written) != 1:
+            p.violation('cache:insert_wrote_nothing', 'insert(%08X) left %r in the rw directory' % (crc, written), {'part': 'connect', 'job': list(job)})
+            return p
+        cname = written[0]
+        with open(os.path.join(d0, cname), 'rb') as fh:
             full = fh.read()
     if cuts == 'all':
         ks = list(range(len(full) + 1))
@@ -254,7 +261,7 @@ def part_connect(job):
     for k in ks:
         dev = _device(nlog, nparam, log_crc, param_crc)
         with tempfile.TemporaryDirectory() as d:
-            fname = os.path.join(d, '%08X.json' % crc)
+            fname = os.path.join(d, cname)
             with open(fname, 'wb') as fh:
                 fh.write(full[:k])
             snap = _connect_once(dev, {'rw_cache': d})
@@ -295,7 +302,8 @@ def part_dirs(_):
     cfh.setup()
     p = Partial()
     log_crc, param_crc = 0x1234ABCD, 0x0BADF00D
-    for combo in ('none', 'rw', 'ro', 'both_ro_hit', 'both_rw_hit', 'ro_missing_dir', 'ro_miss', 'both_miss'):
+    for combo in ('none', 'rw', 'ro', 'both_ro_hit', 'both_rw_hit', 'ro_missing_dir', 'ro_miss', 'both_miss',
+                  'both_ro_truncated', 'ro_truncated', 'both_ro_other_kind'):
         dev = _device(3, 4, log_crc, param_crc)
         with tempfile.TemporaryDirectory() as base:
             ro = os.path.join(base, 'ro')
@@ -312,11 +320,28 @@ def part_dirs(_):
                 c = TocCache(rw_cache=ro)
                 c.insert(log_crc ^ 0x10, _elements_from_device(other, 'log'))
                 c.insert(param_crc ^ 0x10, _elements_from_device(other, 'param'))
-            if combo in ('ro', 'both_ro_hit', 'both_rw_hit', 'ro_miss', 'both_miss'):
+            if combo in ('both_ro_truncated', 'ro_truncated', 'both_ro_other_kind'):
+                # the read-only directory holds an unusable entry for exactly the announced checksums
+                tmpd = os.path.join(base, 'tmp')
+                os.mkdir(tmpd)
+                c = TocCache(rw_cache=tmpd)
+                if combo == 'both_ro_other_kind':
+                    c.insert(log_crc, _elements_from_device(dev, 'param'))
+                    c.insert(param_crc, _elements_from_device(dev, 'log'))
+                else:
+                    c.insert(log_crc, _elements_from_device(dev, 'log'))
+                    c.insert(param_crc, _elements_from_device(dev, 'param'))
+                for fn in os.listdir(tmpd):
+                    with open(os.path.join(tmpd, fn), 'rb') as fh:
+                        content = fh.read()
+                    with open(os.path.join(ro, fn), 'wb') as fh:
+                        fh.write(content if combo == 'both_ro_other_kind' else content[:len(content) // 2])
+            if combo in ('ro', 'both_ro_hit', 'both_rw_hit', 'ro_miss', 'both_miss', 'both_ro_truncated', 'ro_truncated',
+                         'both_ro_other_kind'):
                 kw['ro_cache'] = ro
             if combo == 'ro_missing_dir':
                 kw['ro_cache'] = os.path.join(base, 'does-not-exist')
-            if combo in ('rw', 'both_ro_hit', 'both_rw_hit', 'both_miss'):
+            if combo in ('rw', 'both_ro_hit', 'both_rw_hit', 'both_miss', 'both_ro_truncated', 'both_ro_other_kind'):
                 kw['rw_cache'] = rw
             if combo == 'both_rw_hit':
                 os.mkdir(rw)
@@ -388,7 +413,7 @@ def run(ck):
                'extended) -> fetch is None or entry-for-entry equal; 8 kinds of unparsable entries; 39 neighbouring checksums. '
                'connect level: a real connect with the rw cache file cut at every byte (1- and 3-entry tables) or at a stride '
                'plus both ends (40 entries): connected once, tables equal the device, truncated file downloaded and rewritten '
-               'whole, complete file used without any element request; 8 directory combinations with a hash of the read-only '
+               'whole, complete file used without any element request; 11 directory combinations with a hash of the read-only '
                'tree; log/param checksum collision in 3 storing orders x 2 sessions. distinct = (table, cut position)')
     ck.assume('crash model: the cache file after a crash is a prefix of the intended content (open/write/close, no rename)')
     ck.assume('SimCF announces the checksums; element objects for the stored table are built with the library\'s own element '
